@@ -203,7 +203,7 @@ Proof.
   - apply imp_keeps_sub, refresh_imp.
   - apply imp_keeps_sub, revoke_imp.
   - apply imp_keeps_eq, push_imp.
-  - apply imp_keeps_eq. unfold authorize_par.
+  - apply imp_keeps_eq. rewrite ?authorize_par_fst; unfold authorize_par0.
     destruct (key_of s uri) as [k|]; [|reflexivity].
     destruct (par (st s) k) as [pr|]; [|reflexivity].
     repeat match goal with |- context [if ?c then fail _ _ else _] => destruct c; [reflexivity|] end.
